@@ -101,13 +101,13 @@ MUTANTS = [
     ("c11_hashset_contains_any_in_bucket", ["C11"], "npstructures/hashtable.py",
      "        return np.any(possible_keys == keys[:, None], axis=-1)", "        return np.any(possible_keys >= keys[:, None], axis=-1)"),
     ("c12_count_drops_initial_scalar", ["C12"], "npstructures/hashtable.py",
-     "                    self._values + np.bincount(flat_indices, minlength=self._keys.size),",
-     "                    np.bincount(flat_indices, minlength=self._keys.size),"),
+     "                    (self._values + np.bincount(flat_indices, minlength=self._keys.size)).astype(self._value_dtype),",
+     "                    np.bincount(flat_indices, minlength=self._keys.size).astype(self._value_dtype),"),
     ("c12_count_assigns_instead_of_adding", ["C12"], "npstructures/hashtable.py",
      "            self._values.ravel()[:] += np.bincount(", "            self._values.ravel()[:] = np.bincount("),
     ("c12_count_first_batch_deduplicated", ["C12"], "npstructures/hashtable.py",
-     "                self._values = RaggedArray(\n                    np.bincount(flat_indices, minlength=self._keys.size),",
-     "                self._values = RaggedArray(\n                    np.minimum(np.bincount(flat_indices, minlength=self._keys.size), 3),"),
+     "                self._values = RaggedArray(\n                    np.bincount(flat_indices, minlength=self._keys.size).astype(self._value_dtype),",
+     "                self._values = RaggedArray(\n                    np.minimum(np.bincount(flat_indices, minlength=self._keys.size), 3).astype(self._value_dtype),"),
     ("c12_count_keeps_empty_bucket_rows", ["C12"], "npstructures/hashtable.py",
      "        mask = np.flatnonzero(view.lengths)\n", "        mask = np.flatnonzero(view.lengths >= 0)\n"),
 ]
@@ -177,7 +177,7 @@ def sensitivity(opts):
                     continue
                 open(path, "w").write(s.replace(a, b))
             else:
-                p = subprocess.run(["patch", "-R", "-p1", "-s", "-d", scratch], input=how[1], text=True,
+                p = subprocess.run(["patch", "-R", "-p1", "-s", "--fuzz=3", "-d", scratch], input=how[1], text=True,
                                    capture_output=True)
                 if p.returncode != 0:
                     print(f"sensitivity: {name}: reverse patch does not apply - skipped\n{p.stdout[-500:]}")
